@@ -223,7 +223,7 @@ func vcBounded_integer() {
 }
 
 // prop: C03 C04
-// bound: alignments 0..7 x constraints {none, SIZE(0..255), SIZE(1..150), SIZE(3), SIZE(2), SIZE(4), SIZE(1..32, ...)} x lengths 0..300 (within and, for extensible, beyond the constraint); no fragmented lengths
+// bound: alignments 0..7 x constraints {none, SIZE(0..255), SIZE(1..150), SIZE(1..150, ...), SIZE(2..4, ...), SIZE(3), SIZE(2), SIZE(4), SIZE(1..32, ...)} x lengths 0..300 (within and, for extensible, beyond the constraint); each encoding is decoded back by parseOctetString (C04); no fragmented lengths
 func vcBounded_octetString() {
 	rnd := vcSeed()
 	type oc struct {
@@ -231,7 +231,7 @@ func vcBounded_octetString() {
 		lb, ub int64
 		ext    bool
 	}
-	cases := []oc{{false, 0, 0, false}, {true, 0, 255, false}, {true, 1, 150, false}, {true, 3, 3, false}, {true, 2, 2, false}, {true, 4, 4, false}, {true, 1, 32, true}, {true, 0, 65535, false}}
+	cases := []oc{{false, 0, 0, false}, {true, 0, 255, false}, {true, 1, 150, false}, {true, 1, 150, true}, {true, 2, 4, true}, {true, 3, 3, false}, {true, 2, 2, false}, {true, 4, 4, false}, {true, 1, 32, true}, {true, 0, 65535, false}}
 	for off := 0; off < 8; off++ {
 		for _, c := range cases {
 			for n := 0; n <= 300; n++ {
@@ -259,13 +259,28 @@ func vcBounded_octetString() {
 				}
 				w.OctetString(s, c.hasC, c.lb, c.ub, c.ext)
 				vcSame("appendOctetString", pd, w, fmt.Sprintf("off %d constraint %+v length %d", off, c, n))
+				// and back (C04): the decoder, told the extension bit it finds as parseField tells it, returns the string
+				bd := vcDecoderAfter(pd, off)
+				extensed := false
+				if c.ext {
+					b, err := bd.getBitsValue(1)
+					if err != nil {
+						vcFail("parseOctetString", "constraint %+v length %d: no extension bit: %v", c, n, err)
+					}
+					extensed = b != 0
+				}
+				got, err := bd.parseOctetString(extensed, lbp, ubp)
+				if err != nil || !bytes.Equal(got, s) {
+					vcFail("parseOctetString", "off %d constraint %+v length %d: decoded % x (err %v), encoded % x", off, c, n, []byte(got), err, s)
+				}
+				vcAtEnd("parseOctetString", bd, pd, fmt.Sprintf("off %d constraint %+v length %d", off, c, n))
 			}
 		}
 	}
 }
 
 // prop: C03 C04
-// bound: alignments 0..7 x constraints {SIZE(22..32) gNB id, SIZE(1..160, ...) transport address, SIZE(8), SIZE(16), SIZE(24), SIZE(36), none} x every legal length up to 200 bits
+// bound: alignments 0..7 x constraints {SIZE(22..32) gNB id, SIZE(1..160, ...) transport address, SIZE(16, ...) security algorithms, SIZE(8, ...) RAT restriction, SIZE(8), SIZE(16), SIZE(24), SIZE(36), none} x every legal length up to 200 bits; each encoding is decoded back by parseBitString (C04)
 func vcBounded_bitString() {
 	rnd := vcSeed()
 	type bc struct {
@@ -273,7 +288,7 @@ func vcBounded_bitString() {
 		lb, ub int64
 		ext    bool
 	}
-	cases := []bc{{true, 22, 32, false}, {true, 1, 160, true}, {true, 8, 8, false}, {true, 16, 16, false}, {true, 24, 24, false}, {true, 36, 36, false}, {false, 0, 0, false}}
+	cases := []bc{{true, 22, 32, false}, {true, 1, 160, true}, {true, 16, 16, true}, {true, 8, 8, true}, {true, 8, 8, false}, {true, 16, 16, false}, {true, 24, 24, false}, {true, 36, 36, false}, {false, 0, 0, false}}
 	for off := 0; off < 8; off++ {
 		for _, c := range cases {
 			for n := 1; n <= 200; n++ {
@@ -296,7 +311,38 @@ func vcBounded_bitString() {
 				}
 				w.BitString(s, n, c.hasC, c.lb, c.ub, c.ext)
 				vcSame("appendBitString", pd, w, fmt.Sprintf("off %d constraint %+v bits %d", off, c, n))
+				// and back (C04)
+				bd := vcDecoderAfter(pd, off)
+				extensed := false
+				if c.ext {
+					b, err := bd.getBitsValue(1)
+					if err != nil {
+						vcFail("parseBitString", "constraint %+v bits %d: no extension bit: %v", c, n, err)
+					}
+					extensed = b != 0
+				}
+				got, err := bd.parseBitString(extensed, lbp, ubp)
+				if err != nil || got.BitLength != uint64(n) || !bytes.Equal(got.Bytes, s) {
+					vcFail("parseBitString", "off %d constraint %+v bits %d: decoded %d bits % x (err %v), encoded % x", off, c, n, got.BitLength, got.Bytes, err, s)
+				}
+				vcAtEnd("parseBitString", bd, pd, fmt.Sprintf("off %d constraint %+v bits %d", off, c, n))
 			}
 		}
+	}
+}
+
+// vcDecoderAfter: a decoder over what pd holds, positioned after the off prefix bits.
+func vcDecoderAfter(pd *perRawBitData, off int) *perBitData {
+	return &perBitData{bytes: append([]byte{}, pd.bytes...), byteOffset: 0, bitsOffset: uint(off)}
+}
+
+// vcAtEnd: the decoder's cursor stands where the encoder stopped.
+func vcAtEnd(label string, bd *perBitData, pd *perRawBitData, ctx string) {
+	end := 8 * uint64(len(pd.bytes))
+	if pd.bitsOffset != 0 {
+		end = end - 8 + uint64(pd.bitsOffset)
+	}
+	if cur := 8*bd.byteOffset + uint64(bd.bitsOffset); cur != end {
+		vcFail(label, "%s: decoder stops at bit %d, the encoding ends at bit %d", ctx, cur, end)
 	}
 }
